@@ -17,6 +17,7 @@ import torch
 import xitorch
 
 from vlib import tlc as tlcmod
+from vlib.tlc import RawTla
 from vlib.ctx import Machinery, SPEC
 from vlib.problems import Repr, Boom, Abort, base_tensors, run_functional, contraction, FUNCTIONALS, METHOD_OPTS
 from vlib.substrace import Recorder
@@ -119,6 +120,106 @@ def graph_replay(ctx, pat, depth, evals, budget):
                 bad.setdefault(k, 0)
                 bad[k] += 1
                 ctx.violation(k, "spec->code replay on %s after %s: %s" % (pat, acts, why), {"mode": "graph", "pattern": pat, "actions": acts, "depth": depth, "evals": evals})
+    return len(nodes), n
+
+
+# ------------------------------------------------------------------ views created while a substitution is active (NestedViews.tla)
+class _NVEdit(xitorch.EditableModule):
+    def __init__(self, a, b):
+        self.a = a
+        self.b = b
+
+    def f(self, x):
+        return self.a * x + self.b
+
+    def getparamnames(self, methodname, prefix=""):
+        return [prefix + "a", prefix + "b"]
+
+
+class _NVNN(torch.nn.Module):
+    def __init__(self, a, b):
+        super().__init__()
+        self.a = torch.nn.Parameter(a)
+        self.b = torch.nn.Parameter(b)
+
+    def f(self, x):
+        return self.a * x + self.b
+
+
+def nested_views(ctx, budget):
+    import re
+    from xitorch._core.pure_function import get_pure_function
+    base = dict(Views={"v1", "v2", "v3"}, Slots0=RawTla("<<0, 1>>"), Cands=RawTla("{<<0, 1>>, <<2, 3>>, <<4, 1>>}"), MaxDepth=3, RefreshAtSet=True)
+    t, cf = tlcmod.gen_mc(ctx.work, "NestedViews", "MC_NV", base, invariants=["Quiescent", "LIFO"])
+    dot = os.path.join(ctx.work, "nv.dot")
+    ctx.model_check(t, cf, workers=8, dump_dot=dot, label="views created inside substitutions", timeout=600)
+    nodes, inits, edges = tlcmod.parse_dot(dot)
+    os.remove(dot)
+    t2, cf2 = tlcmod.gen_mc(ctx.work, "NestedViews", "MC_NV_dev", dict(base, RefreshAtSet=False), invariants=["Quiescent", "LIFO"])
+    ctx.expect_violation(t2, cf2, inv="Quiescent", label="deviation RefreshAtSet", workers=4, timeout=300)
+    out = {}
+    for s, d, lab in edges:
+        out.setdefault(s, []).append((d, lab))
+    path = {i: [] for i in inits}
+    order = list(inits)
+    for s in order:
+        for d, lab in out.get(s, []):
+            if d not in path:
+                path[d] = path[s] + [(lab, d)]
+                order.append(d)
+    todo = [(s, d, lab) for s in order for d, lab in out.get(s, [])]
+    rng = random.Random(ctx.seed)
+    rng.shuffle(todo)
+    n = 0
+    for kind in ("edit", "nn"):
+        for s, d, lab in todo[:budget]:
+            n += 1
+            acts = [l for l, _ in path[s]] + [lab]
+            ctx.case(key=("nested-views", kind, tuple(acts)))
+            pool = {i: torch.tensor(float(i), dtype=torch.float64, requires_grad=True) for i in range(2, 6)}
+            obj = (_NVEdit if kind == "edit" else _NVNN)(torch.tensor(0.5, dtype=torch.float64, requires_grad=True), torch.tensor(-0.5, dtype=torch.float64, requires_grad=True))
+            pool[0], pool[1] = obj.a, obj.b
+            ident = {id(v): k for k, v in pool.items()}
+            views, cms = {}, []
+            why = None
+            try:
+                for (l, dst) in path[s] + [(lab, d)]:
+                    m = re.match(r'(\w+)(?:\((.*)\))?', l)
+                    act, args = m.group(1), (m.group(2) or "")
+                    if act == "NewView":
+                        v = re.search(r'"(\w+)"', args).group(1)
+                        views[v] = get_pure_function(obj.f) if v != "v3" else get_pure_function(xitorch.make_sibling(obj.f)(lambda x: obj.f(x) * 1.0))
+                    elif act == "EnterUse":
+                        v = re.search(r'"(\w+)"', args).group(1)
+                        P = [int(x) for x in re.search(r'<<([^>]*)>>', args).group(1).split(",")]
+                        # the caller hands the tensors over in the order in which the view lists the object's parameters
+                        # (an nn.Module view lists the names registered at its creation first)
+                        vw = views[v]
+                        names = getattr(vw, "names", None) or getattr(getattr(vw, "pfunc", None), "names", None) or ["a", "b"]
+                        cm = vw.useobjparams([pool[P[["a", "b"].index(nm_)]] for nm_ in names])
+                        cm.__enter__()
+                        cms.append(cm)
+                    elif act == "Exit":
+                        cms.pop().__exit__(None, None, None)
+                    else:
+                        raise Machinery("unknown action label %r" % l)
+                    got = [ident.get(id(obj.a), -1), ident.get(id(obj.b), -1)]
+                    exp = [int(x) for x in nodes[dst]["slots"]]
+                    if got != exp:
+                        why = "after %s the object holds tensors %s, specification %s" % (l, got, exp)
+                        break
+            except Machinery:
+                raise
+            except Exception as e:
+                why = "raised %s: %s" % (type(e).__name__, str(e)[:120])
+            finally:
+                while cms:
+                    try:
+                        cms.pop().__exit__(None, None, None)
+                    except Exception:
+                        pass
+            if why:
+                ctx.violation("subst/nested-views/%s" % kind, "spec->code replay (%s object) of %s: %s" % (kind, acts, why), {"kind": kind, "actions": acts})
     return len(nodes), n
 
 
@@ -342,6 +443,9 @@ def run(ctx):
     for pat in PATTERNS:
         nb += sim_replay(ctx, pat, 400 if thorough else 60, 14)
     # code -> spec
+    nvn, nve = nested_views(ctx, 100000 if thorough else 1500)
+    tot_nodes += nvn
+    tot_edges += nve
     traces = crash_traces(ctx, thorough)
     rej = ctx.validate_traces("Trace_ParamSubst.tla", "Trace_ParamSubst.cfg", traces, shards=16)
     bytid = {t["tid"]: t for t in traces}
